@@ -52,6 +52,11 @@ static HOWL_RETURNED: AtomicBool = AtomicBool::new(false);
 /// connection sits in the listener's backlog, so that "a connection is ready at the very poll that should notice the interrupt" is a
 /// forced schedule, not luck
 static HOLD_P12: AtomicBool = AtomicBool::new(false);
+/// final wait (`wg.await` after the accept loop): the first poll that found sessions in flight is held between reading the counter and
+/// whatever it does to be polled again, until the harness has let the last session finish - the window in which a wake-up can be lost
+static HOLD_WG: AtomicBool = AtomicBool::new(false);
+static WG_POLLS: AtomicU64 = AtomicU64::new(0);
+static WG_PENDINGS: AtomicU64 = AtomicU64::new(0);
 static WS_GATE: AtomicBool = AtomicBool::new(false);
 static OUT_PATH: std::sync::OnceLock<String> = std::sync::OnceLock::new();
 
@@ -125,6 +130,25 @@ fn wait_armed() {
 }
 
 fn sched_callback(point: &'static str) {
+    // the final wait polls itself in a loop: only the first arrival at each of its points is logged
+    if point == "wg.poll-" {
+        if WG_POLLS.fetch_add(1, Ordering::SeqCst) == 0 { log("pt:wg.poll-"); }
+        return;
+    }
+    if point == "wg.pending-" {
+        if WG_PENDINGS.fetch_add(1, Ordering::SeqCst) == 0 {
+            log("pt:wg.pending-");
+            if HOLD_WG.load(Ordering::SeqCst) {
+                log("held_at:wg.pending-");
+                let t = Instant::now();
+                while HOLD_WG.load(Ordering::SeqCst) && t.elapsed() < Duration::from_secs(90) {
+                    std::thread::sleep(Duration::from_millis(1));
+                }
+                log("released_at:wg.pending-");
+            }
+        }
+        return;
+    }
     log(format!("pt:{point}"));
     let forced = ST.lock().unwrap().as_ref().map(|s| s.forced).unwrap_or(false);
     if !forced {
@@ -327,6 +351,7 @@ pub fn child(args: &Args) {
     let boom = args.flag("boom").is_some();
     let churn: u64 = args.flag("churn").map(|v| v.parse().unwrap()).unwrap_or(0);
     let ws = args.flag("ws").is_some();
+    let holdwg = args.flag("holdwg").is_some();
     let _ = OUT_PATH.set(args.out.clone());
     if args.flag("sigign").is_some() {
         // the process starts with SIGINT ignored, as a background job of a non-interactive shell does
@@ -474,6 +499,7 @@ pub fn child(args: &Args) {
             if late {
                 HOLD_P12.store(true, Ordering::SeqCst);
             }
+            if holdwg && sessions + idle > 0 { HOLD_WG.store(true, Ordering::SeqCst) }
             log("SIGINT");
             raise_sigint("sessions");
             // the loop must stop accepting: after the handler ran, new connections are refused or never served. "After the handler ran" is
@@ -514,6 +540,22 @@ pub fn child(args: &Args) {
                     if let Ok(n) = c.read(&mut b) { if n > 0 { late_served = true; log("late_served"); } }
                 }
             }
+            // "stops accepting": once the final wait has begun (its first poll is in the log) the accept loop is over and the listener
+            // is gone, by program order - while sessions are still in flight a new connection must be refused, not parked in a backlog
+            // nobody will ever serve. Decided at that logical point; if the point is not reached in time nothing is concluded here.
+            let mut listening_during_final_wait = Value::Null;
+            if handler_ran && sessions + idle > 0 && !ws {
+                let t = Instant::now();
+                while !LOG.lock().unwrap().iter().any(|(_, e)| e == "pt:wg.poll-") && t.elapsed() < Duration::from_secs(if patient { 60 } else { 10 }) {
+                    std::thread::sleep(Duration::from_millis(2));
+                }
+                if LOG.lock().unwrap().iter().any(|(_, e)| e == "pt:wg.poll-") && !HOWL_RETURNED.load(Ordering::SeqCst) {
+                    match connect() {
+                        Ok(c) => { log("connect_during_final_wait:ok"); listening_during_final_wait = json!(true); drop(c) }
+                        Err(e) => { log(format!("connect_during_final_wait:{:?}", e.kind())); listening_during_final_wait = json!(false) }
+                    }
+                }
+            }
             let returned_early = HOWL_RETURNED.load(Ordering::SeqCst) && sessions > 0;
             for i in &order {
                 std::thread::sleep(Duration::from_millis(15));
@@ -542,11 +584,19 @@ pub fn child(args: &Args) {
             }
             drop(ws_conn);
             for c in idles { drop(c); log("idle_closed"); }
+            if HOLD_WG.load(Ordering::SeqCst) {
+                // every client is through and has hung up; give the sessions a moment to end on their worker threads while the final wait
+                // is still held inside its window, then let it go on: it must notice that nothing is in flight any more
+                let held = LOG.lock().unwrap().iter().any(|(_, e)| e == "held_at:wg.pending-");
+                std::thread::sleep(Duration::from_millis(if held { 300 } else { 0 }));
+                log("release:wg.pending-");
+                HOLD_WG.store(false, Ordering::SeqCst);
+            }
             let t = Instant::now();
             while !HOWL_RETURNED.load(Ordering::SeqCst) && t.elapsed() < Duration::from_secs(if patient { 100 } else { 10 }) {
                 std::thread::sleep(Duration::from_millis(5));
             }
-            verdict = if !handler_ran { json!({"inconclusive": "the signal handler never ran (sessions scenario)"}) } else { json!({"mode": "sessions", "sessions": sessions, "idle": idle, "order": order, "late_served": late_served, "returned_before_gates": returned_early,
+            verdict = if !handler_ran { json!({"inconclusive": "the signal handler never ran (sessions scenario)"}) } else { json!({"mode": "sessions", "sessions": sessions, "idle": idle, "order": order, "late_served": late_served, "returned_before_gates": returned_early, "listening_during_final_wait": listening_during_final_wait,
                 "howl_returned": HOWL_RETURNED.load(Ordering::SeqCst), "task_polls": POLLS.load(Ordering::SeqCst), "wakes": WAKES.load(Ordering::SeqCst)}) };
         }
         let logv: Vec<Value> = LOG.lock().unwrap().iter().map(|(s, e)| json!([s, e])).collect();
@@ -636,11 +686,14 @@ pub fn run(args: &Args, rep: &mut Report) {
         if s == 2 || s == 3 || rng.chance(1, 6) { ex.push(("churn", if s == 2 || s == 3 { "3000".into() } else { "1000".to_string() })) }
         // scenario 1 always, others sometimes: the process inherited SIG_IGN for SIGINT
         if s == 1 || rng.chance(1, 4) { ex.push(("sigign", "1".into())) }
+        // scenario 5 always, others sometimes: the final wait is held in its window while the last sessions finish
+        if (s == 5 || rng.chance(1, 3)) && n + idle > 0 { ex.push(("holdwg", "1".into())) }
+        let hw = ex.iter().any(|(k, _)| *k == "holdwg");
         let b = ex.iter().any(|(k, _)| *k == "boom");
         let ign = ex.iter().any(|(k, _)| *k == "sigign");
         let ch = ex.iter().any(|(k, _)| *k == "churn");
         let wsf = ex.iter().any(|(k, _)| *k == "ws");
-        work.push((format!("sess:{s}:n{n}:idle{idle}{}{}{}{}", if ign { ":sigign" } else { "" }, if ch { ":churn" } else { "" }, if wsf { ":ws" } else { "" }, if b { ":boom" } else { "" }), ex));
+        work.push((format!("sess:{s}:n{n}:idle{idle}{}{}{}{}", if ign { ":sigign" } else { "" }, if ch { ":churn" } else { "" }, if wsf { ":ws" } else { "" }, if b { ":boom" } else { "" }) + if hw { ":holdwg" } else { "" }, ex));
     }
     for (i, (name, extra)) in work.iter().enumerate() {
         if (i as u64) % args.nshards != args.shard || (i as u64) < args.start {
@@ -733,7 +786,16 @@ fn judge(rep: &mut Report, idx: u64, name: &str, doc: &Value) {
             if log.iter().any(|(_, e)| e == "held_at:p12-") && log.iter().any(|(_, e)| e == "late_connect_ok") {
                 rep.count("late_arrival_forced_at_the_interrupted_poll");
             }
-            if name.ends_with(":boom") { rep.count("scenarios_with_panicking_handler") }
+            if name.contains(":boom") { rep.count("scenarios_with_panicking_handler") }
+            if log.iter().any(|(_, e)| e == "held_at:wg.pending-") { rep.count("final_wait_held_in_its_window_while_the_last_sessions_finished") }
+            match v["listening_during_final_wait"].as_bool() {
+                Some(false) => rep.count("connection_refused_during_the_final_wait"),
+                Some(true) => {
+                    rep.violation("C18/listening-during-final-wait", "the final wait had begun (accept loop over, sessions still in flight) and a new connection was still accepted by the listening socket: the server did not stop accepting", cj());
+                    return;
+                }
+                None => rep.count("final_wait_probe_not_made"),
+            }
             let n = v["sessions"].as_u64().unwrap_or(0);
             rep.count_n("in_flight_sessions", n);
             let returned = seq_of(&log, |e| e == "howl_returned");
